@@ -1,12 +1,346 @@
-/-! Executable model for property C12 (core-only).  Not built yet: the driver answers
-    `unimplemented` so that a check of this property cannot pass by accident. -/
+import FpgoVerif.Model.C12Sys
+/-! Executable model for property C12 (core-only): the line protocol on top of the mailbox transition
+    system (`C12MB.step`) and the actor system (`C12Sys.sysStep`).
+
+    Case lines
+    * `sched k=H|A cap=<k> n=<n> gate=0|1: op ; op ; …`  directed schedule.  Threads: senders `0..n-1`, one closer.
+        `p<i>`  sender i posts its next message (both atoms, runs until it returns or blocks)
+        `k<i>`  sender i starts a Post and is parked after the closed-check (`*.afterClosedCheck`)
+        `s<i>`  release sender i from the park point (its channel send)
+        `c`     Close (both atoms)        `g` Close parked after the flag (`*.close.afterFlag`)    `h` release it
+        `f`     let one posted function finish (gate=1: every posted function waits for a permit)
+        `F`     open the gate for good
+      An op on a thread that cannot take it (busy sender, second Close, nothing parked) is ignored by both
+      sides.  Each op may carry `@<hint>` (the generator's expectation, used by the harness only to know what
+      to wait for); the model ignores it.  After every op the consumer and blocked senders run as far as
+      they can (`settle`), and the observation is `S<started>F<finished>/<sender states><closer state>`
+      (`r` returned/idle, `b` blocked in the send, `p` parked; closer `-` not started).  Last observation:
+      `end <status> log=<per sender: seqs run, in order> ov=<max overlap> pan=<panics> self=ok|bad`.
+    * `stress k=… cap=… n=… m=… jit=… close=0|1 seed=…`  free-running; observation `ok delivered=<n*m>` / `ok closed`.
+    * `tree: new <cap> ; spawn <p> ; close <a> ; send <a> ; parent <c> ; child <p> <c> ; closed <a>`  sequential
+      history over a spawn tree (ids = allocation order). -/
+
 namespace FpgoVerif.C12
 
-/-- one protocol case line in, one canonical observation line out -/
-def handle (_line : String) : String := "unimplemented"
+def scriptOf (i : Nat) : List Job := (List.range 64).map (fun q => ⟨i, q⟩)
 
-/-- spec-level oracle: given the case line and the observation printed by the real code, decide
-    whether the *property* is violated (`violation <why>`) or not (`allowed <why>`). -/
-def judge (_line _impl : String) : String := "violation model-and-implementation-disagree"
+structure Sched where
+  mb      : MB
+  cap     : Nat
+  n       : Nat
+  gate    : Bool
+  permits : Nat
+  st      : Nat → Char
+  waitQ   : List Nat
+  closer  : Char
+
+/-- one internal move: the running call finishes (if permitted), else the consumer receives, else the
+    longest-waiting blocked sender completes its send, else the consumer exits -/
+def settle1 (x : Sched) : Option Sched :=
+  if !x.mb.running.isEmpty && (!x.gate || x.permits > 0) then
+    (step x.cap x.mb .finish).map fun m => { x with mb := m, permits := if x.gate then x.permits - 1 else x.permits }
+  else match step x.cap x.mb .recv with
+  | some m => some { x with mb := m }
+  | none =>
+    let ex := (step x.cap x.mb .exit).map fun m => { x with mb := m }
+    match x.waitQ with
+    | i :: rest =>
+      match step x.cap x.mb (.send i) with
+      | some m => some { x with mb := m, waitQ := rest, st := upd x.st i 'r' }
+      | none => ex
+    | [] => ex
+
+def settle : Nat → Sched → Sched
+  | 0, x => x
+  | fuel + 1, x => match settle1 x with
+    | some y => settle fuel y
+    | none => x
+
+def stripHint (tok : String) : String := (tok.splitOn "@").headD ""
+
+def opArg (tok : String) : Nat := ((tok.drop 1).toString.toNat?).getD 0
+
+def Sched.act (x : Sched) (a : Act) : Sched :=
+  match step x.cap x.mb a with
+  | some m => { x with mb := m }
+  | none => x
+
+def doOp (x : Sched) (tok : String) : Sched :=
+  let i := opArg tok
+  let x := match tok.front with
+    | 'p' =>
+      if x.st i == 'r' && i < x.n then
+        let y := x.act (.check i)
+        if (y.mb.cur i).isSome then { y with st := upd y.st i 'b', waitQ := y.waitQ ++ [i] } else y
+      else x
+    | 'k' =>
+      if x.st i == 'r' && i < x.n then
+        let y := x.act (.check i)
+        if (y.mb.cur i).isSome then { y with st := upd y.st i 'p' } else y
+      else x
+    | 's' => if x.st i == 'p' then { x with st := upd x.st i 'b', waitQ := x.waitQ ++ [i] } else x
+    | 'c' => if x.closer == '-' then { (x.act .closeFlag).act .closeCh with closer := 'r' } else x
+    | 'g' => if x.closer == '-' then { x.act .closeFlag with closer := 'p' } else x
+    | 'h' => if x.closer == 'p' then { x.act .closeCh with closer := 'r' } else x
+    | 'f' => { x with permits := x.permits + 1 }
+    | 'F' => { x with gate := false }
+    | _ => x
+  settle 4096 x
+
+def Sched.status (x : Sched) : String :=
+  let s := x.mb.done.length + x.mb.running.length
+  s!"S{s}F{x.mb.done.length}/" ++ String.ofList ((List.range x.n).map x.st) ++ String.singleton x.closer
+
+def Sched.log (x : Sched) : String :=
+  "/".intercalate ((List.range x.n).map fun i =>
+    s!"{i}:" ++ ",".intercalate ((proj i x.mb.done).map fun j => toString j.seq))
+
+def kv (toks : List String) (key : String) : String :=
+  match toks.find? (fun t => t.startsWith (key ++ "=")) with
+  | some t => (t.drop (key.length + 1)).toString
+  | none => ""
+
+def kvNat (toks : List String) (key : String) : Nat := ((kv toks key).toNat?).getD 0
+
+def splitOps (body : String) : List String :=
+  ((body.splitOn ";").map (fun t => t.trimAscii.toString)).filter (· ≠ "")
+
+/-- head (before the first ": ") and body of a case line -/
+def headBody (line : String) : String × String :=
+  match line.splitOn ": " with
+  | h :: rest => (h, ": ".intercalate rest)
+  | [] => ("", "")
+
+def schedInit (toks : List String) : Sched :=
+  { mb := MB.init scriptOf, cap := kvNat toks "cap", n := kvNat toks "n", gate := kvNat toks "gate" == 1,
+    permits := 0, st := fun _ => 'r', waitQ := [], closer := '-' }
+
+def runSched (line : String) : String :=
+  let (head, body) := headBody line
+  let toks := head.splitOn " "
+  let ops := (splitOps body).map stripHint
+  let (x, outs) := ops.foldl (fun (acc : Sched × List String) t =>
+    let y := doOp acc.1 t
+    (y, y.status :: acc.2)) (schedInit toks, [])
+  let ov := if x.mb.done.length + x.mb.running.length > 0 then 1 else 0
+  " | ".intercalate (outs.reverse ++ [s!"end {x.status} log={x.log} ov={ov} pan=0 self=ok"])
+
+/-! ### stress -/
+
+def runStress (line : String) : String :=
+  let toks := line.splitOn " "
+  if kvNat toks "close" == 1 then "ok closed"
+  else s!"ok delivered={kvNat toks "n" * kvNat toks "m"}"
+
+/-! ### spawn trees: sequential histories on `Sys` -/
+
+def sysScript (_a : Nat) : Nat → List Job := scriptOf
+
+def Sys.act (s : Sys) (a : SAct) : Sys := (sysStep s a).getD s
+
+def Sys.acts (s : Sys) (l : List SAct) : Sys := l.foldl Sys.act s
+
+def showOpt : Option Nat → String
+  | some p => s!"a{p}"
+  | none => "-"
+
+def treeOp (s : Sys) (tok : String) : Sys × String :=
+  match tok.splitOn " " with
+  | ["new", k] =>
+    let s := s.act (.newRoot (k.toNat?.getD 0))
+    (s, s!"a{s.count - 1}")
+  | ["spawn", p] =>
+    let p := p.toNat?.getD 0
+    if p < s.count then
+      let c := s.count
+      let s := s.acts [.spawnNew p, .spawnCheck c, .spawnSetParent c, .spawnSetChild c]
+      (s, s!"a{c} par={showOpt (s.parent c)} kid={if (s.children p).contains c then "y" else "n"}")
+    else (s, "bad")
+  | ["close", a] =>
+    let a := a.toNat?.getD 0
+    if a < s.count && !(s.mb a).flag then
+      (s.acts [.mb a .closeFlag, .mb a .closeCh, .mb a .exit], "ok")
+    else (s, "nop")
+  | ["send", a] =>
+    let a := a.toNat?.getD 0
+    let s := s.acts [.mb a (.check 0), .mb a (.send 0), .mb a .recv, .mb a .finish]
+    (s, s!"ran {(s.mb a).done.length}")
+  | ["parent", c] => (s, showOpt (s.parent (c.toNat?.getD 0)))
+  | ["child", p, c] => (s, if (s.children (p.toNat?.getD 0)).contains (c.toNat?.getD 0) then "y" else "n")
+  | ["closed", a] => (s, if (s.mb (a.toNat?.getD 0)).flag then "y" else "n")
+  | _ => (s, "bad")
+
+def selfOK (s : Sys) : Bool := s.effLog.all fun e => e.2.1 == e.1
+
+def runTree (line : String) : String :=
+  let (_, body) := headBody line
+  let (s, outs) := (splitOps body).foldl (fun (acc : Sys × List String) t =>
+    let (s, o) := treeOp acc.1 t
+    (s, o :: acc.2)) (Sys.init sysScript, [])
+  let rans := " ".intercalate ((List.range s.count).map fun a => toString (s.mb a).done.length)
+  " | ".intercalate (outs.reverse ++ [s!"end ran={rans} self={if selfOK s then "ok" else "bad"}"])
+
+/-- protocol entry point -/
+def handle (line : String) : String :=
+  if line.startsWith "sched " then runSched line
+  else if line.startsWith "stress " then runStress line
+  else if line.startsWith "tree" then runTree line
+  else "bad-case"
+
+/-! ### Spec-level oracle (`judge`): what the property itself says about an observation -/
+
+structure Snap where
+  s : Nat
+  f : Nat
+  st : List Char       -- senders
+  closer : Char
+
+def parseSnap (n : Nat) (o : String) : Option Snap :=
+  match o.splitOn "/" with
+  | [cnt, sts] =>
+    match (cnt.drop 1).toString.splitOn "F" with
+    | [a, b] =>
+      match a.toNat?, b.toNat? with
+      | some a, some b =>
+        let cs := sts.toList
+        if cs.length == n + 1 then some ⟨a, b, cs.take n, cs.getD n '-'⟩ else none
+      | _, _ => none
+    | _ => none
+  | _ => none
+
+structure JState where
+  prev : Snap
+  started : Nat → Nat
+  outst : Nat → Option Nat
+  closeStarted : Bool
+  mustRun : List Job
+  mustNot : List Job
+  bad : Option String
+
+def jStep (n : Nat) (j : JState) (opob : String × String) : JState :=
+  let (op, ob) := opob
+  if j.bad.isSome then j else
+  match parseSnap n ob with
+  | none => { j with bad := some s!"unreadable observation '{ob}'" }
+  | some cur =>
+    let i := opArg op
+    let isPost := (op.front == 'p' || op.front == 'k') && i < n && j.prev.st.getD i 'r' == 'r'
+    let j := if isPost then
+        let q := j.started i
+        { j with started := upd j.started i (q + 1), outst := upd j.outst i (some q),
+                 mustNot := if j.prev.closer == 'r' then ⟨i, q⟩ :: j.mustNot else j.mustNot }
+      else j
+    let j := if (op.front == 'c' || op.front == 'g') && j.prev.closer == '-' then { j with closeStarted := true } else j
+    let j := (List.range n).foldl (fun (j : JState) k =>
+      match j.outst k with
+      | some q =>
+        if cur.st.getD k 'r' == 'r' then
+          { j with outst := upd j.outst k none,
+                   mustRun := if j.closeStarted then j.mustRun else ⟨k, q⟩ :: j.mustRun }
+        else j
+      | none => j) j
+    { j with prev := cur }
+
+def parseLog (s : String) : List Job :=
+  (s.splitOn "/").flatMap fun part =>
+    match part.splitOn ":" with
+    | [i, seqs] =>
+      match i.toNat? with
+      | some i => (seqs.splitOn ",").filterMap fun q => q.toNat?.map fun q => (⟨i, q⟩ : Job)
+      | none => []
+    | _ => []
+
+def strictlyIncreasing : List Nat → Bool
+  | a :: b :: t => a < b && strictlyIncreasing (b :: t)
+  | _ => true
+
+def judgeSched (line impl : String) : String :=
+  if impl == "hang" then "violation the schedule did not terminate (deadlock or blocked forever)"
+  else if impl == "crash" || impl == "panic" then "violation a panic escaped"
+  else
+  let (head, body) := headBody line
+  let toks := head.splitOn " "
+  let n := kvNat toks "n"
+  let ops := (splitOps body).map stripHint
+  let obs := impl.splitOn " | "
+  if obs.length != ops.length + 1 then "violation malformed observation (wrong number of steps)" else
+  let j0 : JState := ⟨⟨0, 0, List.replicate n 'r', '-'⟩, fun _ => 0, fun _ => none, false, [], [], none⟩
+  let j := (ops.zip obs).foldl (jStep n) j0
+  match j.bad with
+  | some b => s!"violation {b}"
+  | none =>
+    let last := obs.getLastD ""
+    let ltoks := last.splitOn " "
+    let log := parseLog (kv ltoks "log")
+    if kv ltoks "pan" != "0" then "violation a panic escaped from Post/Send/Close or the posted function"
+    else if (kv ltoks "ov").toNat?.getD 99 > 1 then "violation two posted functions ran at the same time on one mailbox"
+    else if kv ltoks "self" != "ok" then "violation the effect did not receive the actor itself"
+    else if !(List.range n).all (fun i => strictlyIncreasing ((proj i log).map (·.seq))) then
+      "violation a message ran twice or out of the order its sender submitted it"
+    else if !log.all (fun x => x.sender < n && x.seq < j.started x.sender) then "violation a message ran that nobody submitted"
+    else if j.mustNot.any (fun x => log.contains x) then "violation a message submitted after Close returned was run"
+    else
+      let quiescent := match parseSnap n (ltoks.getD 1 "") with
+        | some e => e.s == e.f && e.st.all (· == 'r') && (e.closer == 'r' || e.closer == '-')
+        | none => false
+      if quiescent && !j.mustRun.all (fun x => log.contains x) then
+        "violation a message whose Post/Send returned before Close began was never run"
+      else "allowed exactly-once, serial, per-sender order and after-Close dropping all hold in this observation"
+
+/-- independent spec of the spawn-tree histories: (parent, closed, ran) per actor -/
+structure TNode where
+  parent : Option Nat
+  closed : Bool
+  ran : Nat
+
+def setNth {α} : List α → Nat → α → List α
+  | [], _, _ => []
+  | _ :: t, 0, v => v :: t
+  | h :: t, k + 1, v => h :: setNth t k v
+
+def treeSpecOp (t : List TNode) (tok : String) : List TNode × String :=
+  match tok.splitOn " " with
+  | ["new", _] => (t ++ [⟨none, false, 0⟩], s!"a{t.length}")
+  | ["spawn", p] =>
+    let p := p.toNat?.getD 0
+    match t[p]? with
+    | some P =>
+      if P.closed then (t ++ [⟨none, false, 0⟩], s!"a{t.length} par=- kid=n")
+      else (t ++ [⟨some p, false, 0⟩], s!"a{t.length} par=a{p} kid=y")
+    | none => (t, "bad")
+  | ["close", a] =>
+    let a := a.toNat?.getD 0
+    match t[a]? with
+    | some A => if A.closed then (t, "nop") else (setNth t a { A with closed := true }, "ok")
+    | none => (t, "nop")
+  | ["send", a] =>
+    let a := a.toNat?.getD 0
+    match t[a]? with
+    | some A =>
+      if A.closed then (t, s!"ran {A.ran}") else (setNth t a { A with ran := A.ran + 1 }, s!"ran {A.ran + 1}")
+    | none => (t, "ran 0")
+  | ["parent", c] => (t, match t[c.toNat?.getD 0]? with | some C => showOpt C.parent | none => "-")
+  | ["child", p, c] =>
+    (t, match t[c.toNat?.getD 0]? with
+        | some C => if C.parent == some (p.toNat?.getD 0) then "y" else "n"
+        | none => "n")
+  | ["closed", a] => (t, match t[a.toNat?.getD 0]? with | some A => if A.closed then "y" else "n" | none => "n")
+  | _ => (t, "bad")
+
+def treeSpec (line : String) : String :=
+  let (_, body) := headBody line
+  let (t, outs) := (splitOps body).foldl (fun (acc : List TNode × List String) tok =>
+    let (t, o) := treeSpecOp acc.1 tok
+    (t, o :: acc.2)) ([], [])
+  " | ".intercalate (outs.reverse ++ [s!"end ran={" ".intercalate (t.map fun x => toString x.ran)} self=ok"])
+
+def judge (line impl : String) : String :=
+  if line.startsWith "sched " then judgeSched line impl
+  else if line.startsWith "stress " then
+    if impl.startsWith "ok" then "allowed the monitors saw no violation" else s!"violation monitor: {impl}"
+  else if line.startsWith "tree" then
+    if impl == treeSpec line then "allowed agrees with the spawn-tree spec"
+    else s!"violation spawn-tree spec gives: {treeSpec line}"
+  else "violation unknown case"
 
 end FpgoVerif.C12
